@@ -92,6 +92,15 @@ Proof.
 Qed.
 Print Assumptions run_releases_right_after_its_result_is_available.
 
+(** ... for EVERY outcome of the function: [fn_done] is what the model does when run j's function result becomes
+    available, with r ranging over all outcomes — a value, an Exception, a BaseException that is not an Exception
+    ([BoomBase]: maybeDeferred catches it like the others), the failure of the Deferred it returned, its cancellation —
+    and it always releases, at once (then possibly grants the oldest waiter) *)
+Theorem run_releases_whatever_the_function_outcome : forall k j r s,
+  exists x y l, log (fst (fn_done k j r s)) = l ++ (ERelease j, y) :: (EFnDone j, x) :: log s.
+Proof. exact fn_done_releases. Qed.
+Print Assumptions run_releases_whatever_the_function_outcome.
+
 Theorem run_result_is_delivered_after_release : forall limit fuel ops l1 x l2 j r,
   log (fst (run limit fuel ops)) = l1 ++ (EResult j r, x) :: l2 ->
   In j (released l2) /\ In j (fndone l2).
